@@ -15,9 +15,9 @@ from vlib.runner import HERE, Outcome, hyp_search
 
 ID = "C12"
 LEVEL = "exploration"
-RULE = ("Each shard fixes a pool of 22 documents (generated ones that deliberately share object numbers, the resource "
+RULE = ("Each shard fixes a pool of 26 documents (generated ones that deliberately share object numbers, the resource "
         "name /F1, BaseFont names, base encodings differing only in /Differences, predefined CMap names with different "
-        "ToUnicode maps, multi-page members, a grid of equidistant labels, two Type0 fonts sharing one descendant, Type1 fonts with different built-in encodings, a /Font dictionary mixing indirect and direct fonts, two documents encrypted through the same crypt filter name with different keys, a document whose xref table carries a wrong offset and marks an object free whose body is still in the file, a document whose pages leave the graphics-state stack unbalanced (unclosed q with a non-default colour space, stray Q on the next page), a document whose pages share one zero-length content stream and paint an empty form twice, a document with a page whose /Resources are empty or missing while its content names what the previous page defines, a document with strings printed over each other (tied lines in one box), a document with a form that paints itself and two forms that paint each other, two documents of which one defines colour space resource names that the other uses without defining them; plus repository samples incl. an AES-encrypted one and CJK ones). "
+        "ToUnicode maps, multi-page members, a grid of equidistant labels, two Type0 fonts sharing one descendant, Type1 fonts with different built-in encodings, a /Font dictionary mixing indirect and direct fonts, two documents encrypted through the same crypt filter name with different keys, a document whose xref table carries a wrong offset and marks an object free whose body is still in the file, a document whose pages leave the graphics-state stack unbalanced (unclosed q with a non-default colour space, stray Q on the next page), a document whose pages share one zero-length content stream and paint an empty form twice, a document with a page whose /Resources are empty or missing while its content names what the previous page defines, a document with strings printed over each other (tied lines in one box), a document with a form that paints itself and two forms that paint each other, a document whose two pages paint one form without /Resources under different fonts, two documents of which one defines colour space resource names that the other uses without defining them; plus repository samples incl. an AES-encrypted one and CJK ones). "
         "Hypothesis draws call histories (model-based op lists) run in one long-lived process: extract_text, "
         "extract_pages to completion, open a page iterator, advance any open iterator (interleaving documents), extract "
         "a single page by page_numbers, extract_text_to_fp(xml), rendering through one PDFResourceManager(caching=False) shared by the whole history; each with caching on/off and LAParams default or "
@@ -239,6 +239,15 @@ def gen_doc(kind, variant):
         objs[42] = W.Stream(W.D(Type=W.N("XObject"), Subtype=W.N("Form"), BBox=[0, 0, 10, 10]), b"")
         pages = [b"/E0 Do BT /F1 12 Tf 50 700 Td (One %d) Tj ET /E0 Do" % variant,
                  b"BT /F1 12 Tf 50 650 Td (Two) Tj ET /E0 Do"]
+    elif kind == "formnores":
+        # a form without /Resources (PDF 1.1 style: it uses those of the page that paints it) is painted by two pages
+        # that bind /F1 to different fonts: the cached form object must not keep what the first page lent it
+        for num, nm, g, w in ((10, "FnA", "X", 500), (15, "FnB", "Y", 700)):
+            objs[num] = W.simple_font(nm, widths=[w] * 95)
+            objs[num][b"Encoding"] = W.D(Type=W.N("Encoding"), Differences=[65, W.N(g)])
+        objs[43] = W.Stream(W.D(Type=W.N("XObject"), Subtype=W.N("Form"), BBox=[0, 0, 300, 100]),
+                            b"BT /F1 9 Tf 10 10 Td (AAA in form %d) Tj ET" % variant)
+        pages = [b"BT /F1 12 Tf 50 700 Td (A one) Tj ET /Fm0 Do", b"/Fm0 Do BT /F1 12 Tf 50 650 Td (A two) Tj ET"]
     elif kind == "crypt":
         # encrypted with the standard security handler, crypt filter /StdCF in every variant but different file keys
         # (and RC4 vs AES): per-document decryption state must not be shared between open documents
@@ -274,6 +283,9 @@ def gen_doc(kind, variant):
             del objs[23][b"Resources"]
         else:
             objs[23][b"Resources"] = {}
+    if kind == "formnores":
+        for i in range(len(pages)):
+            objs[21 + 2 * i][b"Resources"] = {b"Font": {b"F1": W.R([10, 15][(i + variant) % 2])}, b"XObject": {b"Fm0": W.R(43)}}
     if kind == "sharedempty":
         for i in range(len(pages)):
             pg = objs[21 + 2 * i]
@@ -353,7 +365,8 @@ def make_pool(rnd):
         pool.append(["sample", s[0], s[1]])
     order = list(range(len(pool)))
     rnd.shuffle(order)
-    return [pool[i] for i in order]
+    # (appended after the shuffle: the order of the other members is as it was before this member existed)
+    return [pool[i] for i in order] + [["gen", "formnores", rnd.randrange(2)]]
 
 
 # ------------------------------------------------------------------ canonical results
